@@ -122,6 +122,10 @@ def BOUNDED(tier, seed):
         n = rng.randint(3, 8)
         histories.append([{k: Fraction(rng.randint(-4, 4), rng.randint(1, 3)) for k in rng.sample(keys, rng.randint(0, 4))}
                           for _ in range(n)])
+    # the same statement at very small and very large magnitudes (a non-zero sum, however tiny, normalises to one)
+    for h in list(histories[-12:]):
+        for scale in (Fraction(1, 10 ** 9), Fraction(1, 10 ** 13), Fraction(10 ** 9)):
+            histories.append([{k: v * scale for k, v in u.items()} for u in h])
     for h in histories:
         for kind, alpha in (('welford', None), ('es', Fraction(1, 3)), ('es', Fraction(1))):
             evals += 1
@@ -137,7 +141,7 @@ def BOUNDED(tier, seed):
     return [{'name': 'reference_model_exact', 'evaluations': evals, 'distinct_nontrivial': len(distinct),
              'rule': 'all 2-step histories over dicts with <= 2 of 3 keys and 3 values, plus seeded random histories (3..8 steps, 4 keys '
                      'incl. an int key), each for Welford, ES(1/3), ES(1); exact Fractions through the real class against an '
-                     'independent per-key reference; distinct = distinct (tracker, history)',
+                     'independent per-key reference; 12 of the random histories also scaled by 1e-9, 1e-13, 1e9; distinct = distinct (tracker, history)',
              'bound': 'histories of <= 8 updates, <= 4 keys', 'failures': fails},
             {'name': 'normalise_numeric_kinds', 'evaluations': n2, 'distinct_nontrivial': n2,
              'rule': 'two keys x {int,float,np.float64,np.int64,np.float32}^2 x 5 value pairs (3 with zero sum); zero sum must give all 0.0, '
